@@ -6,6 +6,18 @@ def classify(sig, what):
         return 'N2: a valid document whose names (' + body[5:] + ', placed in every name position) start with a digit, contain a backtick or contain non-ASCII letters makes generate ' + target + ' fail with a source-formatting error on its own output (' + msg + '): the name manglers produce an identifier starting with a digit / cut a multi-byte rune / leave the backtick inside a raw string. The property demands success for any name with a letter.'
     if 'nondeterministic outcome' in sig:
         return 'ND1: the generator output for this target is not a function of its input: the same document sometimes yields code that builds and sometimes code that does not (map-iteration order inside the generator, see C07); observed e.g. on two-hop $ref chains (m.P == nil on a non-pointer alias) and on cli imports.'
+    if body.startswith('c08:'):
+        cls = body.split(':')[1]
+        rest = body[len('c08:' + cls) + 1:]
+        if cls == 'operation-ids-across-packages':
+            return 'O4: two operations whose ids mangle to one Go name but live in different tag packages (legitimate), each with an inline payload holding a NESTED inline object: the nested schema is lifted into the models package under one synthesised name (GetPetOKBodyNested) for both operations, one operation package refers to models.<Name> and the models package is not generated at all: generate ' + target + ' exits 0 and the result does not build (' + rest + ').'
+        if cls.startswith('definition'):
+            return 'D1 (build face): definition names that collide after mangling - also with names the generator synthesises (FooItems0, GetAOKBody) - are written into one models file / declared twice; where nothing is silently lost the result does not build: generate ' + target + ' exits 0 (' + rest + ': ' + msg + ').'
+        if cls.startswith('operation') or cls.startswith('paths'):
+            return 'O1 (build face): operation ids (or paths without id) that mangle to one Go name are registered twice (duplicate field / method / file): generate ' + target + ' exits 0 and the result does not build instead of failing with an error (' + rest + ': ' + msg + ').'
+        if cls == 'tags':
+            return 'O3 (build face): tags that map to one package name - also through the generator\'s own de-confliction - produce duplicate methods / mismatched package references in the ' + target + ' target: exits 0, does not build (' + rest + ': ' + msg + ').'
+        return 'O?: a colliding-name spec of C08 (' + body + ') makes generate ' + target + ' exit 0 with code that does not build (' + msg + ').'
     if body.startswith('ext:'):
         e = body[4:]
         if 'ref of ref (alias definition)' in e:
